@@ -17,6 +17,7 @@ import sys
 import tempfile
 
 from .. import common
+from .. import shellbuild
 from .. import model as M
 from ..modelgen import GenOpts, ModelGen
 
@@ -115,36 +116,55 @@ def show_op(op: list) -> str:
     return f'i{op[1]}.process()'
 
 
-def malformed_variant(doc: dict) -> dict:
-    """A copy of the document with an interface added to its innermost first namespace whose
-    out-event replies bool - something the parser always refuses."""
-    bad = json.loads(json.dumps(doc))
-    bad_itf = {'<class>': 'interface', 'name': {'<class>': 'scope_name', 'ids': ['QZRefused']},
-               'types': {'<class>': 'types', 'elements': []},
-               'events': {'<class>': 'events', 'elements': [
-                   {'<class>': 'event', 'name': 'qz', 'direction': 'out',
-                    'signature': {'<class>': 'signature',
-                                  'type_name': {'<class>': 'scope_name', 'ids': ['bool']},
-                                  'formals': {'<class>': 'formals', 'elements': []}}}]}}
-    where = bad
-    while True:
-        inner = next((e for e in where.get('elements', []) if isinstance(e, dict)
-                      and e.get('<class>') == 'namespace'), None)
-        if inner is None:
-            break
-        where = inner
-    where.setdefault('elements', []).append(bad_itf)
-    return bad
+malformed_variant = shellbuild.malformed_variant
+
+
+def reshape_namespaces(model):
+    """A copy of the model with every compound namespace name split into nested namespaces and
+    every namespace that holds nothing but one namespace merged with it."""
+    import copy  # pylint: disable=import-outside-toplevel
+    model = copy.deepcopy(model)
+
+    def redo(elements):
+        out = []
+        for e in elements:
+            if isinstance(e, M.Namespace):
+                inner = redo(e.elements)
+                if len(e.name) >= 2:
+                    node = M.Namespace([e.name[-1]], inner)
+                    for ident in reversed(e.name[:-1]):
+                        node = M.Namespace([ident], [node])
+                    out.append(node)
+                elif len(inner) == 1 and isinstance(inner[0], M.Namespace):
+                    out.append(M.Namespace(list(e.name) + list(inner[0].name), inner[0].elements))
+                else:
+                    out.append(M.Namespace(list(e.name), inner))
+            else:
+                out.append(e)
+        return out
+    model.elements = redo(model.elements)
+    return model
 
 
 def build_case(seed: int, stream: int) -> dict:
     rng = random.Random(f'{PROP}:{seed}:{stream}')
     n_docs = rng.randint(2, 4)
     docs, expects = [], []
-    for _ in range(n_docs):
-        gen = ModelGen(rng, make_opts(rng)).generate()
+    first_model = None
+    for idx in range(n_docs):
+        opts = make_opts(rng)
+        if stream % 7 == 5 and idx == 0:
+            opts.max_ns_depth, opts.multi_id_ns = 3, 0.6
+        gen = ModelGen(rng, opts).generate()
+        first_model = first_model or gen.model
         docs.append(M.to_json(gen.model, decorate=rng.random() < 0.3, rng=rng))
         expects.append(M.expectations(gen.model))
+    if stream % 7 == 5:
+        # the same declarations under the same names, the namespaces written differently:
+        # `namespace My.Project {}` where the other document nests `My { Project {} }`
+        other = reshape_namespaces(first_model)
+        docs[-1] = M.to_json(other)
+        expects[-1] = M.expectations(other)
     if stream % 7 == 3:     # the same document twice: identical parses must not merge either
         docs[-1] = json.loads(json.dumps(docs[0]))
         expects[-1] = json.loads(json.dumps(expects[0]))
@@ -161,6 +181,11 @@ def build_case(seed: int, stream: int) -> dict:
         ops += [['load', slot, n_docs - 1], ['process', slot], ['load', slot, 0], ['process', slot],
                 ['new', slot, n_docs - 1, 'str'], ['process', slot], ['load', slot, 1],
                 ['process', slot]]
+    if stream % 7 == 5 and expects[-1] is not None:
+        # and for certain: both spellings parsed in one process, in both orders
+        last = len(docs) - 1
+        ops += [['new', 0, 0, 'str'], ['process', 0], ['new', 1, last, 'bytes'], ['process', 1],
+                ['load', 0, last], ['process', 0], ['load', 1, 0], ['process', 1]]
     return {'docs': docs, 'expects': expects, 'ops': ops,
             'child_ref': stream % CHILD_EVERY == 0, 'stream': stream,
             'paths': ['per-doc', 'one-file', 'relative'][stream % 3]}
